@@ -118,7 +118,7 @@ pub async fn run(cx: &mut Ctx) {
     let t0 = tokio::time::Instant::now();
 
     // ---------------- phase 1: run the history, journalled
-    let db = match Db::open(knobs.options(&root)).await {
+    let mut db = match Db::open(knobs.options(&root)).await {
         Ok(d) => d,
         Err(e) => {
             cx.harness_error = Some(format!("initial open failed: {e}"));
@@ -157,7 +157,24 @@ pub async fn run(cx: &mut Ctx) {
                 advance(Duration::from_millis(*ms)).await;
                 cx.log.absorb_journal();
             }
-            Step::Reopen => {}
+            Step::Reopen => {
+                // clean shutdown + reopen inside the history: boot-time manifest rewrite and
+                // vacuum become crash points of the main journal
+                let _ = db.shutdown().await;
+                drop(db);
+                quiesce().await;
+                match Db::open(knobs.options(&root)).await {
+                    Ok(d) => db = d,
+                    Err(e) => {
+                        // a reopen failure without any crash belongs to C03, not C04
+                        cx.probe("clean-reopen-failed-in-history");
+                        cx.log.push(format!("    reopen failed: {e}"));
+                        cx.stats.nontrivial = false;
+                        return;
+                    }
+                }
+                cx.log.absorb_journal();
+            }
         }
         rec.states.push(state_of(&model));
         rec.defs.push(model.clone());
